@@ -1,9 +1,8 @@
 use std::time::Duration;
 
 use crate::{
-    compiler_state::CompilerState,
-    with_duration::WithDuration,
-    write_artifacts::{apply_file_system_operations, get_file_system_operations},
+    compiler_state::CompilerState, with_duration::WithDuration,
+    write_artifacts::write_artifacts_to_disk,
 };
 use artifact_content::get_artifact_path_and_content;
 use colored::Colorize;
@@ -100,14 +99,12 @@ pub fn compile<TCompilationProfile: CompilationProfile>(
     let config = db.get_isograph_config();
     let (artifacts, stats) = get_artifact_path_and_content(db)?;
 
-    let file_system_operations = get_file_system_operations(
+    let total_artifacts_written = write_artifacts_to_disk(
         &artifacts,
         &config.artifact_directory.absolute_path,
         &mut state.file_system_state,
-    );
-
-    let total_artifacts_written = apply_file_system_operations(&file_system_operations, &artifacts)
-        .map_err(Diagnostic::from)?;
+    )
+    .map_err(Diagnostic::from)?;
 
     CompilationStats {
         client_field_count: stats.client_field_count,
